@@ -19,9 +19,10 @@ RULE = ("scenario = one faulty flow + 0..3 healthy neighbours; base schedule as 
         "handled set (ECONNREFUSED ETIMEDOUT EHOSTUNREACH ENETUNREACH EHOSTDOWN ENETDOWN ECONNABORTED ECONNRESET "
         "EACCES EPERM, EINVAL->SO_ERROR), recv reset, send reset, EPIPE, shutdown error, injected at random callbacks "
         "of the faulty flow (quick) / every callback index (thorough); directed: id exhaustion for tcp/dns/udp, late "
-        "frames, DnsProxy/UdpProxy socket errors; non-trivial = at least one fault fired; distinct = distinct script")
-DRIVER_TARGETS = ['SshuttleModel.Code.Tunnel']
-DRIVERS = ['Tunnel']
+        "frames, DnsProxy/UdpProxy socket errors, getpeername errnos at accept, accept() failing with EMFILE/ENFILE/other "
+        "errnos at 0/1/7 free descriptor slots (counting os shim); non-trivial = at least one fault fired; distinct = distinct script")
+DRIVER_TARGETS = ['SshuttleModel.Code.Tunnel', 'SshuttleModel.Code.Accept']
+DRIVERS = ['Tunnel', 'C08']
 ASSUMPTIONS = [
     "errnos outside the handled set at connect time are re-raised by design (try_connect: 'barf completely') and are "
     "outside the property's quantifier",
@@ -40,7 +41,12 @@ MANIFEST = dict(
                 "complete list of steps that can end a process (C08_death_causes: unknown connect errno, CONNECT for a live "
                 "id, non-stream frame on a TCP channel - nothing else), and none of them can occur: from start-up, for "
                 "every schedule whose connect errnos are in the handled set and whose DNS/UDP/control frames are not "
-                "addressed to a TCP flow id, with pairwise distinct flow ids, neither process ever ends (C08_no_death). Replayed against the real classes with fault "
+                "addressed to a TCP flow id, with pairwise distinct flow ids, neither process ever ends (C08_no_death); in front of the flow, the accept handler: getpeername() failing on the "
+                "accepted socket with ENOTCONN / EINVAL / ENOTSOCK (a reset before the wrapper exists) is tolerated "
+                "(C08_reset_at_accept_contained, over the errno set read off ssnet._try_peername on every run), and accept() "
+                "failing with EMFILE / ENFILE ends only the arriving connection for EVERY number of free descriptor slots, zero "
+                "included: the handler's descriptor operations, in the order read off client.onaccept_tcp on every run, never "
+                "need a slot they have not freed and leave the spare descriptor open again (C08_fd_exhaustion_contained). Replayed against the real classes with fault "
                 "injection on every run; exhaustion / late-frame / server UDP and DNS proxy faults are driven on the real "
                 "client and server functions."),
     level_note=("Trusted: as C01. UDP/DNS flows are outside the Lean model: their containment is decided on the real code "
@@ -335,6 +341,176 @@ def dgram_faults(ctx):
                 break
 
 
+def accept_faults(ctx, only=None):
+    """Faults in front of the flow, through the REAL client.onaccept_tcp: getpeername() failing on the accepted
+    socket (a reset between accept() and the wrapper), and accept() failing for lack of descriptors with the process
+    at / near its descriptor limit (the os-level open/close of the spare descriptor go through a counting shim).
+    Outcomes are compared with the model (Code/Accept.lean, whose errno sets and operation order are extracted from
+    the source) and judged by the property: the tolerated resets and EMFILE/ENFILE must not end the client."""
+    import socket
+    import sshuttle.ssnet as ssnet
+    import sshuttle.client as client
+
+    class DF:
+        def fileno(self):
+            return 999
+
+        def read(self, n):
+            return b''
+
+        def write(self, b):
+            return len(b)
+
+    class Budget:
+        def __init__(self, free):
+            self.free, self.extra, self.sock = free, True, False
+
+    class Sock:
+        family = 2
+
+        def __init__(self, b, err):
+            self.b, self.err, self.closed = b, err, False
+
+        def getsockname(self):
+            return ('127.0.0.1', 12300)
+
+        def getpeername(self):
+            if self.err is not None:
+                raise socket.error(self.err, os_strerror(self.err))
+            return ('10.9.0.1', 40000)
+
+        def close(self):
+            if not self.closed:
+                self.closed = True
+                self.b.sock = False
+                self.b.free += 1
+
+        def setblocking(self, x):
+            pass
+
+        def shutdown(self, how):
+            pass
+
+        def fileno(self):
+            return 2001
+
+    def os_strerror(e):
+        import os
+        return os.strerror(e)
+
+    class Listener:
+        family = 2
+
+        def __init__(self, b, first_err, peer_err):
+            self.b, self.first_err, self.peer_err, self.calls = b, first_err, peer_err, 0
+
+        def accept(self):
+            self.calls += 1
+            if self.calls == 1 and self.first_err is not None:
+                raise socket.error(self.first_err, os_strerror(self.first_err))
+            if self.b.free == 0:
+                raise socket.error(errno.EMFILE, os_strerror(errno.EMFILE))
+            self.b.free -= 1
+            self.b.sock = True
+            self.last = Sock(self.b, self.peer_err)
+            return self.last, ('10.9.0.1', 40000)
+
+    class Method:
+        def get_tcp_dstip(self, sock):
+            return ('192.0.2.1', 80)
+
+    EXTRA = 987654
+
+    class OsShim:
+        def __init__(self, real, b):
+            self._real, self._b = real, b
+
+        def __getattr__(self, n):
+            return getattr(self._real, n)
+
+        def close(self, fd):
+            if fd == EXTRA and self._b.extra:
+                self._b.extra = False
+                self._b.free += 1
+                return
+            raise OSError(errno.EBADF, 'Bad file descriptor')
+
+        def open(self, path, flags, *a):
+            if self._b.free == 0:
+                raise OSError(errno.EMFILE, 'Too many open files')
+            self._b.free -= 1
+            self._b.extra = True
+            return EXTRA
+
+    def one(first_err, peer_err, free):
+        b = Budget(free)
+        saved = (client.os, client._extra_fd, ssnet.set_non_blocking_io if hasattr(ssnet, 'set_non_blocking_io') else None)
+        client.os = OsShim(saved[0], b)
+        client._extra_fd = EXTRA
+        old_stderr = sys.stderr
+        sys.stderr = io.StringIO()
+        handlers = []
+        try:
+            mux = ssnet.Mux(DF(), DF())
+            lst = Listener(b, first_err, peer_err)
+            try:
+                client.onaccept_tcp(lst, Method(), mux, handlers)
+            except Exception as e:  # noqa
+                return 'died', '%s: %s' % (type(e).__name__, e)
+            if handlers:
+                return 'created', ''
+            return 'refused free=%d extra=%d sock=%d' % (b.free, int(b.extra and client._extra_fd == EXTRA), int(b.sock)), ''
+        finally:
+            sys.stderr = old_stderr
+            client.os, client._extra_fd = saved[0], saved[1]
+
+    ins, outs, meta = [], [], []
+    tolerated = [errno.ENOTCONN, errno.EINVAL, errno.ENOTSOCK]
+    for e in [None] + tolerated + [errno.ECONNRESET, errno.EBADF, errno.EIO]:
+        if only and only != ('peername', e):
+            continue
+        out, why = one(None, e, 5)
+        ins.append('peername %s' % ('none' if e is None else e))
+        outs.append(out)
+        meta.append(dict(kind='accept-fault', what='peername', errno=e))
+        ctx.count()
+        ctx.mark(('peername', e), e is not None)
+        ctx.hist('directed:accept-peername')
+        if e in tolerated and out != 'created':
+            ctx.violation('C08:accept:reset-before-the-wrapper-ends-the-client',
+                          case=dict(kind='accept-fault', what='peername', errno=e),
+                          expected='getpeername() failing with %s on the accepted socket is tolerated: the flow is created '
+                                   '(and ends through the ordinary error path); the client keeps running' % errno.errorcode[e],
+                          observed='%s %s' % (out, why))
+    for e in [errno.EMFILE, errno.ENFILE, errno.EAGAIN, errno.ECONNABORTED]:
+        for free in (0, 1, 7):
+            if only and only != ('accepterr', e, free):
+                continue
+            out, why = one(e, None, free)
+            ins.append('accepterr %d %d' % (e, free))
+            outs.append(out)
+            meta.append(dict(kind='accept-fault', what='accepterr', errno=e, free=free))
+            ctx.count()
+            ctx.mark(('accepterr', e, free), True)
+            ctx.hist('directed:accept-fd-exhaustion')
+            if e in (errno.EMFILE, errno.ENFILE) and out != 'refused free=%d extra=1 sock=0' % free:
+                ctx.violation('C08:accept:descriptor-exhaustion-ends-the-client',
+                              case=dict(kind='accept-fault', what='accepterr', errno=e, free=free),
+                              expected='the arriving connection is accepted and closed, the spare descriptor is open again, '
+                                       '%d free slots as before; the client keeps running' % free,
+                              observed='%s %s' % (out, why))
+    if only or not ctx.model_available:
+        return ins, outs
+    mo = common.LeanBatch('C08').run(ins)
+    if len(mo) != len(ins):
+        ctx.corr_break('C08', case=None, impl='%d lines' % len(ins), model='%d lines' % len(mo))
+        return ins, outs
+    for i, (a, b2) in enumerate(zip(outs, mo)):
+        if a != b2:
+            ctx.corr_break('C08', case=meta[i], impl=a, model=b2, note='input line: ' + ins[i])
+    return ins, outs
+
+
 def reset_in_same_round(ctx, rng, which):
     """A flow's endpoint resets in the SAME select round in which traffic of another flow arrives on the mux, with
     the faulty flow already half-closed by its peer: one real ssnet.runonce must survive it and the neighbour's
@@ -384,6 +560,7 @@ def run(ctx):
     rng = ctx.rng
     directed(ctx)
     dgram_faults(ctx)
+    accept_faults(ctx)
     all_in, all_out = [], []
     for which in ('s', 'c'):
         ins, outs = reset_in_same_round(ctx, rng, which)
@@ -416,6 +593,12 @@ def replay(ctx, rep):
         dgram_faults(c2)
         hit = [v for v in c2.violations if v['key'] == rep.get('key')]
         return bool(hit), (str(hit[0]['observed'])[:300] if hit else 'both processes keep running')
+    if case.get('kind') == 'accept-fault':
+        c2 = type(ctx)(ctx.prop_id, 'quick', 0)
+        only = ('peername', case['errno']) if case['what'] == 'peername' else ('accepterr', case['errno'], case['free'])
+        _ins, outs = accept_faults(c2, only=only)
+        hit = [v for v in c2.violations if v['key'] == rep.get('key')]
+        return bool(hit), (str(hit[0]['observed'])[:300] if hit else 'outcome: %s' % (outs[0] if outs else '-'))
     if case.get('kind') in ('exhaust', 'server-proxy'):
         c2 = type(ctx)(ctx.prop_id, 'quick', 0)
         directed(c2)
